@@ -1109,25 +1109,37 @@ fn case_has_fuse(c: &Case) -> bool {
     c.tmpls.iter().any(|t| items_have_fuse(&t.layout) || t.blocks.values().any(|b| items_have_fuse(b)))
 }
 
-/// The recovery stream: on ONE state left by `render_captured`, for every block name and for
-/// k = 1, 2, 3: render the block (reference), render it again with the fuse armed to fail at its
-/// k-th call, then — the failure is over, the state is still in use — render it a third time.
-/// The third result must be the reference: a failed render of a block must not change which
-/// definition the next render of that block (or of any other) resolves to.
+/// The recovery stream: on ONE state — the one left by `render_captured`, then a fresh one from
+/// `new_state` — for every block name and for k = 1, 2, 3: render the block (reference), render
+/// it again with the fuse armed to fail at its k-th call, then — the failure is over, the state is
+/// still in use — render all three blocks again.  Each must give its reference: a failed render
+/// of a block must not change which definition the next render of that block (or of any other)
+/// resolves to.
 fn recovery_stream(env: &Environment<'static>, main: &str, pr: &Pr) -> String {
     let tmpl = env.get_template(main).unwrap();
-    let mut captured = match tmpl.render_captured(context(pr)) {
-        Ok(c) => c,
-        Err(_) => return "skip".into(),
-    };
+    let mut injected = 0usize;
+    if let Ok(mut captured) = tmpl.render_captured(context(pr)) {
+        match recovery_on("captured", &mut |b| captured.with_state_mut(|state| state.render_block(b))) {
+            Ok(n) => injected += n,
+            Err(diff) => return diff,
+        }
+    }
+    let mut state = tmpl.new_state();
+    match recovery_on("fresh", &mut |b| state.render_block(b)) {
+        Ok(n) => injected += n,
+        Err(diff) => return diff,
+    }
+    format!("same:{}", injected.min(9))
+}
+
+fn recovery_on(which: &str, render: &mut dyn FnMut(&str) -> Result<String, Error>) -> Result<usize, String> {
     let mut injected = 0usize;
     let names = ["b0", "b1", "b2"];
-    let reference: Vec<String> =
-        names.iter().map(|b| res_of(captured.with_state_mut(|state| state.render_block(b))).0).collect();
+    let reference: Vec<String> = names.iter().map(|b| res_of(render(b)).0).collect();
     for n in 0..3usize {
         for k in 1..=3usize {
             fuse_arm(k);
-            let armed = captured.with_state_mut(|state| state.render_block(names[n]));
+            let armed = render(names[n]);
             let blown = FUSE_CALLS.load(std::sync::atomic::Ordering::SeqCst) >= k;
             fuse_arm(0);
             if !blown {
@@ -1136,18 +1148,18 @@ fn recovery_stream(env: &Environment<'static>, main: &str, pr: &Pr) -> String {
             }
             injected += 1;
             if armed.is_ok() {
-                return format!("diff:b{n}:k{k}:b{n}:the render in which the fuse failed reported success");
+                return Err(format!("diff:b{n}:k{k}:b{n}:[{which} state] the render in which the fuse failed reported success"));
             }
             // the block that failed first, then every other block: all resolve as before
             for m in (0..3usize).map(|d| (n + d) % 3) {
-                let again = res_of(captured.with_state_mut(|state| state.render_block(names[m]))).0;
+                let again = res_of(render(names[m])).0;
                 if again != reference[m] {
-                    return format!("diff:b{n}:k{k}:b{m}:{again}|before the failure:{}", reference[m]);
+                    return Err(format!("diff:b{n}:k{k}:b{m}:[{which} state] {again}|before the failure:{}", reference[m]));
                 }
             }
         }
     }
-    format!("same:{}", injected.min(9))
+    Ok(injected)
 }
 
 /// Renders t0 and, with the same environment:
